@@ -88,7 +88,11 @@ class JSONRPCError(Exception):
 
     def __new__(cls, rpc_error):
         assert cls is JSONRPCError
-        cls = JSONRPCError.SUBCLS_BY_CODE.get(rpc_error['code'], cls)
+        try:
+            cls = JSONRPCError.SUBCLS_BY_CODE.get(rpc_error['code'], cls)
+        except TypeError:
+            # an unhashable code (JSON array or object) is not a registered one
+            pass
 
         self = Exception.__new__(cls)
 
